@@ -82,7 +82,8 @@ Relations(e, src, kind, o, so) ==
          <<"C08.affine_eer", haveEER =>
               /\ Close(e.eer.e6, src.eer.e6, 2)
               /\ (TieFree(o) => Close(e.eer.t4, src.eer.t4, 5))>>,
-         <<"C08.affine_auc", SameRate(e.auc, src.auc) /\ SameRate(e.pauc, src.pauc)>>}
+         <<"C08.affine_auc", SameRate(e.auc, src.auc) /\ SameRate(e.pauc, src.pauc)
+                             /\ Len(e.axes) = Len(src.axes) /\ \A i \in DOMAIN e.axes : SameRate(e.axes[i], src.axes[i])>>}
        (* C09: so = the object declaring easy samples, o = its materialisation  *)
        [] kind = "materialise" -> {
          <<"C09.same_matrices", sameGrid /\ \A i \in 1..n :
@@ -96,7 +97,8 @@ Relations(e, src, kind, o, so) ==
                                        /\ RLe(e.thr[m][i], RInt(S[Len(S)])))
                      => (src.thr[m][i][2] > 0 /\ REq(e.thr[m][i], src.thr[m][i]))>>,
          <<"C09.same_auc", SameRate(e.auc, src.auc) /\ SameRate(e.pauc, src.pauc)
-                           /\ SameRate(e.pauc2, src.pauc2)>>}
+                           /\ SameRate(e.pauc2, src.pauc2)
+                           /\ Len(e.axes) = Len(src.axes) /\ \A i \in DOMAIN e.axes : SameRate(e.axes[i], src.axes[i])>>}
 
 TraceProbe ==
   /\ IsEvent("probe")
@@ -135,7 +137,8 @@ TraceBigPair ==
                /\ \A i \in 1..Len(e.thrB[m]) :
                     (e.thrB[m][i] >= e.lo /\ e.thrB[m][i] <= e.hi) => Close(e.thrA[m][i], e.thrB[m][i], 1)>>,
           <<"C09.same_matrices", ~ok \/ (Len(e.cmA) = Len(e.cmB) /\ \A i \in 1..Len(e.cmA) :
-               Cells(e.cmA[i]) = Cells(e.cmB[i]))>>}))
+               Cells(e.cmA[i]) = Cells(e.cmB[i]))>>,
+          <<"C09.same_auc", ~ok \/ Close(e.aucA9, e.aucB9, 2)>>}))
 
 (* the subclass GroupScores: per-group matrices of the original, of swap(), and of the   *)
 (* original again (whichever is asked first must not influence the other)              *)
